@@ -195,6 +195,57 @@ def run(tier='quick', repo=None):
         rep.add('R-queue', '%s:drain-before-%s' % (fname, after.replace('upipe_throw_', '')), HOLDS if (ok and inloop) else VIOLATED, fn.loc,
                 **({} if (ok and inloop) else {'what': '%s must pop the data queue in a loop until it is empty before %s, and output nothing afterwards' % (fname, after)}))
     # ownership of the queue sink / source input paths
+    # ---- three more confinement / delivery clauses (necessary conditions, one function each) --------------------
+    rep.rule('R-rewatch', 'upipe_queue_sink.c: every upump_start() of the sink\'s own watcher (upipe_qsink->upump) is preceded, in its function, by '
+             'upipe_qsink_check_watcher(): attaching a upump manager drops the watcher, so a sink that is holding buffers must re-create it or the held '
+             'buffers are never delivered')
+    nst = 0
+    for fn in sorted(qs.funcs.values(), key=lambda f: f.name):
+        if not fn.blocks or fn.macro:
+            continue
+        ev = pr.Events(fn)
+
+        def own_start(n):
+            if n.get('k') != 'call' or n.get('fn') != 'upump_start' or not n.get('args'):
+                return False
+            a = strip_all_casts(n['args'][0])
+            return isinstance(a, dict) and a.get('k') == 'mem' and a.get('rec') == 'upipe_qsink' and a.get('f') == 'upump'
+        if not ev.find(own_start):
+            continue
+        nst += 1
+        bad = pr.must_precede(ev, pr.m_call('upipe_qsink_check_watcher'), own_start)
+        rep.add('R-rewatch', fn.name, VIOLATED if bad else HOLDS, fn.loc,
+                **({'what': '%s starts upipe_qsink->upump on a path that has not been through upipe_qsink_check_watcher(): after UPIPE_ATTACH_UPUMP_MGR the '
+                            'watcher is NULL and the held buffers stay in the sink for ever' % fn.name} if bad else {}))
+    if nst < 2:
+        raise facts.AnalysisBroken('R-rewatch found %d functions starting the sink watcher' % nst)
+    rep.rule('R-xfer-event', 'uprobe_xfer_throw: an event that is in the list of transferred events is re-thrown as UPROBE_XFER_* (to be queued to the '
+             'application thread) and never handed to uprobe_throw_next() in the calling (worker) thread')
+    ux = prog.units.get('lib/upipe/uprobe_transfer.c')
+    fx = ux.funcs.get('uprobe_xfer_throw') if ux else None
+    if fx is None:
+        raise facts.AnalysisBroken('anchor vanished: uprobe_xfer_throw')
+    evx = pr.Events(fx)
+    sel = pr.m_load(('uprobe_xfer_sub', 'xfer_event'))
+    nxt = pr.m_call('uprobe_throw_next')
+    if not evx.find(sel) or not evx.find(pr.m_call('upipe_throw')):
+        raise facts.AnalysisBroken('uprobe_xfer_throw: transfer dispatch not recognised')
+    badx = pr.never_after(evx, sel, nxt)
+    rep.add('R-xfer-event', 'uprobe_xfer_throw', VIOLATED if badx else HOLDS, fx.loc,
+            **({'what': 'after the event was found in the transfer list (found->xfer_event consulted) uprobe_throw_next() is still reachable (line %s): '
+                        'the application\'s probes then run in the worker thread' % badx[0][1][2].get('l')} if badx else {}))
+    rep.rule('R-freeze-nest', 'uprobe_pthread_upump_mgr_throw: the per-thread frozen state is a nesting counter - incremented on FREEZE, decremented on THAW, '
+             'never assigned - so that a freeze / thaw pair inside another (a worker allocated while the application froze the probe) does not thaw the outer one')
+    up = prog.units.get('lib/upipe-pthread/uprobe_pthread_upump_mgr.c')
+    ft = up.funcs.get('uprobe_pthread_upump_mgr_throw') if up else None
+    if ft is None:
+        raise facts.AnalysisBroken('anchor vanished: uprobe_pthread_upump_mgr_throw')
+    evt = pr.Events(ft)
+    inc, dec = evt.find(pr.m_incdec('frozen', '++')), evt.find(pr.m_incdec('frozen', '--'))
+    plain = [x for x in evt.find(pr.m_store('frozen')) if is_assign(x[2]) and x[2].get('op') == '=']
+    okf = bool(inc) and bool(dec) and not plain
+    rep.add('R-freeze-nest', 'uprobe_pthread_upump_mgr_throw', HOLDS if okf else VIOLATED, ft.loc,
+            **({} if okf else {'what': 'frozen is %s: nested freeze / thaw pairs are not counted' % ('assigned' if plain else 'not incremented / decremented')}))
     ownrule.run_own(rep, prog, only_units={'lib/upipe-modules/upipe_queue_sink.c', 'lib/upipe-modules/upipe_queue_source.c'}, local_functions=False)
     # ---- R-atomic (shared with C09) -------------------------------------------------------
     rep.rule('R-atomic', 'an lvalue of declared type uatomic_uint32_t / uatomic_ptr_t occurs only as &lvalue argument of a uatomic_* call (units of this check)')
